@@ -276,6 +276,108 @@ func c12Scenario(id string, race bool, senders, perSender, capacity int, seed in
 	}}
 }
 
+// self-close with blocked senders: the work that is running closes its own Handler / Actor while `capacity` accepted
+// items sit in the mailbox and `blocked` more senders are blocked on the full mailbox. Close() must return, the blocked
+// senders must return, everything accepted before the Close runs exactly once in order, nothing runs twice.
+func c12SelfClose(id string, actor bool, capacity, blocked int, seed int64) core.Scenario {
+	return core.Scenario{ID: id, Class: "mailbox.self-close", Run: func(c *core.Ctx) {
+		what := map[bool]string{true: "Actor", false: "Handler"}[actor]
+		rep := map[string]any{"scenario": id, "target": what, "channel_capacity": capacity, "blocked_senders": blocked}
+		c.Eval(1)
+		c.Distinct(id)
+		var mu sync.Mutex
+		var log []int
+		note := func(m int) { mu.Lock(); log = append(log, m); mu.Unlock() }
+		entered, release, closeReturned := make(chan struct{}), make(chan struct{}), make(chan struct{})
+		var submit func(m int)
+		if actor {
+			eff := func(self *fpgo.ActorDef[int], m int) {
+				if m == 0 {
+					close(entered)
+					<-release
+					self.Close()
+					close(closeReturned)
+				}
+				note(m)
+			}
+			var a *fpgo.ActorDef[int]
+			if capacity == 0 {
+				a = fpgo.ActorNewGenerics(eff)
+			} else {
+				a = fpgo.ActorNewByOptionsGenerics(eff, make(chan int, capacity), map[string]interface{}{})
+			}
+			submit = func(m int) { a.Send(m) }
+		} else {
+			var h *fpgo.HandlerDef
+			if capacity == 0 {
+				h = fpgo.Handler.New()
+			} else {
+				h = fpgo.Handler.NewByCh(make(chan func(), capacity))
+			}
+			submit = func(m int) {
+				h.Post(func() {
+					if m == 0 {
+						close(entered)
+						<-release
+						h.Close()
+						close(closeReturned)
+					}
+					note(m)
+				})
+			}
+		}
+		submit(0)
+		<-entered
+		for m := 1; m <= capacity; m++ {
+			submit(m) // accepted: the call returns
+		}
+		var wg sync.WaitGroup
+		for b := 0; b < blocked; b++ {
+			wg.Add(1)
+			go func(b int) { defer wg.Done(); submit(100 + b) }(b)
+		}
+		time.Sleep(time.Duration(200+seed%7*300) * time.Microsecond) // let them block (if they have not yet, they race the Close: fine too)
+		close(release)
+		if !c12Await(c, closeReturned, what+":Close-from-its-own-work-with-blocked-senders", rep) {
+			return
+		}
+		sendersDone := make(chan struct{})
+		go func() { wg.Wait(); close(sendersDone) }()
+		if !c12Await(c, sendersDone, what+":senders-blocked-at-Close", rep) {
+			return
+		}
+		time.Sleep(2 * time.Millisecond)
+		mu.Lock()
+		got := append([]int(nil), log...)
+		mu.Unlock()
+		counts := map[int]int{}
+		var acceptedOrder []int
+		for _, m := range got {
+			counts[m]++
+			if m <= capacity {
+				acceptedOrder = append(acceptedOrder, m)
+			}
+		}
+		for m := 0; m <= capacity; m++ {
+			if counts[m] != 1 {
+				c.Violationf(what+":accepted-before-self-close-not-once", rep, "%s (capacity %d) closed by its own work with %d senders blocked: item %d, accepted before the Close, was processed %d times (processed: %v)", what, capacity, blocked, m, counts[m], got)
+				return
+			}
+		}
+		for i := range acceptedOrder {
+			if acceptedOrder[i] != i {
+				c.Violationf(what+":order", rep, "%s: accepted items were processed in the order %v", what, acceptedOrder)
+				break
+			}
+		}
+		for b := 0; b < blocked; b++ {
+			if counts[100+b] > 1 {
+				c.Violationf(what+":duplicate", rep, "%s: the item of a sender blocked at Close was processed %d times", what, counts[100+b])
+			}
+		}
+	}}
+}
+
 func nextTick() {
 	t := time.Now()
 	for !time.Now().After(t) {
@@ -410,6 +512,15 @@ func c12SpawnScenario(id string, depth, fan int, seed int64) core.Scenario {
 
 func c12Scenarios(c *core.Ctx, race bool) []core.Scenario {
 	var out []core.Scenario
+	for capacity := 0; capacity <= 3; capacity++ {
+		for blocked := 0; blocked <= 3; blocked++ {
+			for _, actor := range []bool{false, true} {
+				for r := 0; r < c.Pick(1, 6); r++ {
+					out = append(out, c12SelfClose(fmt.Sprintf("self-close-%v-cap%d-blocked%d-r%d-race%v", actor, capacity, blocked, r, race), actor, capacity, blocked, c.Seed+int64(r)))
+				}
+			}
+		}
+	}
 	n := c.Pick(40, 400)
 	if race {
 		n = c.Pick(16, 80)
@@ -444,13 +555,18 @@ func init() {
 		Meta: func(c *core.Ctx) core.Meta {
 			return core.Meta{
 				Level:       "exploration",
-				Rule:        "1..16 concurrent senders x 1..2000 messages (thorough: long runs of 60000) x channel capacity 0..4 (New / NewByCh / NewByOptions) against one Handler and one Actor per scenario; every message carries (sender, seq); the effect is the monitor: normal build = atomic busy counter (must read 1 on entry) + PRNG yields inside the effect, race build = PLAIN counter and PLAIN log append so that the Go race detector (deciding) reports any two effects not ordered by happens-before; after a drain marker the log must hold every message exactly once with each sender's subsequence increasing; self == actor; work submitted after Close returned never runs; spawn trees of depth 1..3 x fan 1..3 for GetParent/GetChild, mailbox independence and spawning from a closed parent. distinct_nontrivial = distinct scenarios",
-				Assumptions: []string{"Close is called only after the drain (closing concurrently with senders is property C15)", "actor ids are time stamps; the harness spaces Spawn calls by one clock tick"},
+				Rule:        "1..16 concurrent senders x 1..2000 messages (thorough: long runs of 60000) x channel capacity 0..4 (New / NewByCh / NewByOptions) against one Handler and one Actor per scenario; every message carries (sender, seq); the effect is the monitor: normal build = atomic busy counter (must read 1 on entry) + PRNG yields inside the effect, race build = PLAIN counter and PLAIN log append so that the Go race detector (deciding) reports any two effects not ordered by happens-before; after a drain marker the log must hold every message exactly once with each sender's subsequence increasing; self == actor; work submitted after Close returned never runs; Close() called by the running work itself with 0..3 accepted items buffered and 0..3 senders blocked on the full mailbox (Close and the senders must return, accepted items run once in order); spawn trees of depth 1..3 x fan 1..3 for GetParent/GetChild, mailbox independence and spawning from a closed parent. distinct_nontrivial = distinct scenarios",
+				Assumptions: []string{"Close is called after the drain or by the running work itself (closing concurrently with arbitrary senders is property C15)", "actor ids are time stamps; the harness spaces Spawn calls by one clock tick"},
 			}
 		},
 		Scenarios: c12Scenarios,
 		Batch:     10, RaceToo: true, RaceBatch: 8, Par: 6, Timeout: 300e9,
 		RaceRelevant: func(s core.RaceSig) bool {
+			// the plain isClosed flag read by Post/Send and written by Close: shutdown concurrent with senders is C15's
+			// subject (DESIGN.md section 4), not a statement of C12
+			if strings.Contains(s.Sig, ").Close") {
+				return false
+			}
 			return strings.Contains(s.Text, "c12Probe") || strings.Contains(s.Text, "handler.go") || strings.Contains(s.Text, "actor.go")
 		},
 	})
